@@ -456,11 +456,19 @@ def select(ra, pa, ridx, pidx):
         R = frozenset(ref.vox(ra))
         P = frozenset(ref.vox(pa))
         return R, P
+    def py(x):
+        return x.item() if isinstance(x, np.generic) else x
+
+    def raw(arr):  # coordinate -> python value (floats stay floats: a label 1.5 selects the voxels equal to 1.5)
+        a = np.asarray(arr)
+        idx = np.argwhere(a != 0)
+        return dict(zip(map(tuple, idx.tolist()), a[tuple(idx.T)].tolist())) if len(idx) else {}
+
     labs = pidx if isinstance(pidx, list) else [pidx]
-    labs = {int(x) for x in labs}
-    ridx = int(ridx)
-    R = frozenset(c for c, v in ref.vox(ra).items() if v == ridx) if ridx != 0 else None
-    P = frozenset(c for c, v in ref.vox(pa).items() if v in labs) if 0 not in labs else None
+    labs = {py(x) for x in labs}
+    ridx = py(ridx)
+    R = frozenset(c for c, v in raw(ra).items() if v == ridx) if ridx != 0 else None
+    P = frozenset(c for c, v in raw(pa).items() if v in labs) if 0 not in labs else None
     if R is None or P is None:
         return None
     return R, P
